@@ -59,6 +59,7 @@ type streamCase struct {
 	Work        string              `json:"work"`
 	Expected    []string            `json:"expected"` // canonical targets, in input order
 	Callers     int                 `json:"callers"`
+	SpareCap    map[string]int      `json:"spare_cap,omitempty"` // spare capacity of the default value slices
 	LongLine    bool                `json:"long_line,omitempty"`
 	Fat         bool                `json:"fat,omitempty"`
 	Sched       []int               `json:"-"`
@@ -67,22 +68,31 @@ type streamCase struct {
 var keys = []string{"X-Account-ID", "x-account-id", "Content-Type", "Authorization", "X", "k1", "ETag"}
 var vals = []string{"8675309", "Token DEADBEEF", "text/plain; charset=utf-8", "a:b", "1", "2"}
 
-func genDefaults(r *kit.Rng) map[string][]string {
-	m := map[string][]string{}
-	for i := 0; i < r.Pick(3); i++ {
+func genDefaults(r *kit.Rng) (map[string][]string, map[string]int) {
+	m, spare := map[string][]string{}, map[string]int{}
+	for i := 0; i < r.Pick(4); i++ {
 		k := r.PickStr(keys)
 		m[k] = []string{"d" + strconv.Itoa(i)}
-		if r.Chance(0.3) {
+		switch r.Pick(4) {
+		case 0:
 			m[k] = append(m[k], "e")
+		case 1:
+			m[k] = append(m[k], "e", "f") // three values given one after the other: cap 4
+			spare[k] = 1
+		}
+		if r.Chance(0.5) {
+			spare[k] = 1 + r.Pick(4)
 		}
 	}
-	return m
+	return m, spare
 }
 
-func mkHeader(m map[string][]string) http.Header {
+// mkHeader builds the default header map; spare[k] > 0 gives k's value slice that much spare
+// capacity — what repeated -header flags produce (three values: len 3, cap 4)
+func mkHeader(m map[string][]string, spare map[string]int) http.Header {
 	h := http.Header{}
 	for k, vs := range m {
-		s := make([]string, len(vs)) // no spare capacity: the sharing defect of C14 is not C15's subject
+		s := make([]string, len(vs), len(vs)+spare[k])
 		copy(s, vs)
 		h[k] = s
 	}
@@ -105,7 +115,8 @@ func expectedTarget(method, url string, body []byte, own [][2]string, sc *stream
 }
 
 func genStreamCase(r *kit.Rng, format, work string, id int) streamCase {
-	sc := streamCase{Format: format, Work: work, Files: map[string][]byte{}, Defaults: genDefaults(r)}
+	sc := streamCase{Format: format, Work: work, Files: map[string][]byte{}}
+	sc.Defaults, sc.SpareCap = genDefaults(r)
 	if r.Chance(0.5) {
 		sc.DefaultBody = []byte("default")
 	}
@@ -215,6 +226,7 @@ func genStreamCase(r *kit.Rng, format, work string, id int) streamCase {
 
 type callerLog struct {
 	results   []string
+	held      []*vegeta.Target // nil for an error result; rendered when the round is over
 	exhausted int
 	late      int // results received after this caller was told ErrNoTargets
 	panicMsg  string
@@ -245,11 +257,16 @@ func drawConcurrently(tr vegeta.Targeter, callers int) []callerLog {
 					l.exhausted++
 				case err != nil:
 					l.results = append(l.results, "err "+err.Error())
+					l.held = append(l.held, nil)
 					if l.exhausted > 0 {
 						l.late++
 					}
 				default:
-					l.results = append(l.results, "ok "+showTarget(&t))
+					// the caller keeps the target; it is looked at when the round is over, after every
+					// other caller's draws (a delivered target must not be mixed with a later one)
+					l.results = append(l.results, "")
+					tc := t
+					l.held = append(l.held, &tc)
 					if l.exhausted > 0 {
 						l.late++
 					}
@@ -260,6 +277,13 @@ func drawConcurrently(tr vegeta.Targeter, callers int) []callerLog {
 	close(start)
 	if !waitTimeout(&wg, hangLimit) {
 		return nil // some caller never got an answer; the goroutines are abandoned
+	}
+	for g := range logs {
+		for i, t := range logs[g].held {
+			if t != nil {
+				logs[g].results[i] = "ok " + showTarget(t)
+			}
+		}
 	}
 	return logs
 }
@@ -295,7 +319,7 @@ func runStream(s *kit.Summary, sc *streamCase) (implLine string) {
 		}
 	}()
 	var tr vegeta.Targeter
-	hdr := mkHeader(sc.Defaults)
+	hdr := mkHeader(sc.Defaults, sc.SpareCap)
 	if sc.Format == "json" {
 		tr = vegeta.NewJSONTargeter(strings.NewReader(sc.Src), sc.DefaultBody, hdr)
 	} else {
@@ -335,6 +359,9 @@ func runStream(s *kit.Summary, sc *streamCase) (implLine string) {
 	}
 	if sc.Fat {
 		s.Count(sc.Format + ":fat_round")
+	}
+	if len(sc.SpareCap) > 0 {
+		s.Count(sc.Format + ":default_with_spare_capacity")
 	}
 	sort.Strings(got)
 	exp := make([]string, len(sc.Expected))
@@ -405,7 +432,7 @@ func streamOp(sc *streamCase, sched []int) string {
 		sb.WriteString(strconv.Itoa(len(ks)))
 		for _, k := range ks {
 			vs := sc.Defaults[k]
-			sb.WriteString(" " + kit.HexS(k) + " " + strconv.Itoa(len(vs)) + " " + strconv.Itoa(len(vs)))
+			sb.WriteString(" " + kit.HexS(k) + " " + strconv.Itoa(len(vs)+sc.SpareCap[k]) + " " + strconv.Itoa(len(vs)))
 			for _, v := range vs {
 				sb.WriteString(" " + kit.HexS(v))
 			}
